@@ -155,6 +155,7 @@ class History:
             self.add_peer()
         self.ro = sqlite3.connect("file:%s?mode=ro" % self.path, uri=True)
         self.relayed = {}       # block id -> per-peer count
+        self.rejected_blocks = []
         self.had_rejection = False
         self.log = []
         # pending transactions in the pool
@@ -289,6 +290,8 @@ class History:
         else:
             c["rejected"] += 1
             self.had_rejection = True
+            if not cls.endswith("@re-delivered") and "future" not in codes:
+                self.rejected_blocks.append((rblk, cls))
             if in_state:
                 mon.v("rejected-block-in-chain-state:" + "+".join(sorted(codes)), "class %s: block that breaks %s is part of "
                       "the node's chain state after delivery" % (cls, sorted(codes)), w)
@@ -323,6 +326,14 @@ class History:
             if r < 0.12 and len(world.chain.order) > 1:
                 bid = rng.choice(world.chain.order[1:])
                 self.deliver(world.chain.blocks[bid], "duplicate", None, None)
+                continue
+            if r > 0.9 and self.rejected_blocks:
+                # a block that was refused before is delivered again: must be refused again, with no trace
+                rb, cls0 = rng.choice(self.rejected_blocks[-30:])
+                c["redelivered_rejected"] = c.get("redelivered_rejected", 0) + 1
+                self.deliver(rb, cls0 + "@re-delivered", None, None)
+                if getattr(self, "diverged", False):
+                    break
                 continue
             cls = rng.choice(valid_names) if r < 0.45 else rng.choice(names)
             cs = world.cs
@@ -417,6 +428,7 @@ def replay(mon, w, classes):
         h.add_peer()
     h.ro = sqlite3.connect("file:%s?mode=ro" % h.path, uri=True)
     h.relayed, h.had_rejection, h.log = {}, False, []
+    h.rejected_blocks = []
     for d, rb in zip(w["deliveries"], delivered):
         h.deliver(rb, d["class"], None, None)
         if len(h.active_raws()) < 3:
